@@ -115,12 +115,14 @@ def dfltFor (c : Ctx) (a : Attr) : Option J :=
   | some d => if d.isNull || reqRO c a then none else some d
   | none => none
 
+/-- one turn of the default-injection loop: property `k` with attributes `a` -/
+def injectStep (c : Ctx) (k : String) (a : Attr) (kvs : List (String × J)) : List (String × J) :=
+  if slotEmpty c (lookup k kvs) then (match dfltFor c a with | some d => setKey k d kvs | none => kvs) else kvs
+
 /-- the default-injection loop at the head of visitJSONObject -/
 def injectDefaults (c : Ctx) : List (String × S) → List (String × J) → List (String × J)
   | [], kvs => kvs
-  | (k, s) :: ps, kvs =>
-    injectDefaults c ps
-      (if slotEmpty c (lookup k kvs) then (match dfltFor c s.attr with | some d => setKey k d kvs | none => kvs) else kvs)
+  | (k, s) :: ps, kvs => injectDefaults c ps (injectStep c k s.attr kvs)
 
 /-- "readOnly property in request": some read-only property is present and not null -/
 def roViolation (c : Ctx) (props : List (String × S)) (kvs : List (String × J)) : Bool :=
@@ -132,13 +134,18 @@ def addlOK (addl : Bool) (props : List (String × S)) (kvs : List (String × J))
 def requiredOK (req : List String) (props : List (String × S)) (kvs : List (String × J)) : Bool :=
   req.all (fun k => (lookup k kvs).isSome || (match lookup k props with | some s => s.attr.readOnly | none => false))
 
+/-- the members after the default-injection loop (which only runs when `DefaultsSet` is installed) -/
+def defaulted (c : Ctx) (props : List (String × S)) (kvs : List (String × J)) : List (String × J) :=
+  if c.setDefaults then injectDefaults c props kvs else kvs
+
+/-- the three object-level checks of visitJSONObject (they look at the members after the defaults) -/
+def objChecks (c : Ctx) (req : List String) (props : List (String × S)) (addl : Bool) (kvs1 : List (String × J)) : Bool :=
+  !roViolation c props kvs1 && addlOK addl props kvs1 && requiredOK req props kvs1
+
 /-- everything visitJSONObject does that does not descend: defaults, then the three object-level checks -/
 def objPre (c : Ctx) (req : List String) (props : List (String × S)) (addl : Bool) (kvs : List (String × J)) :
     Option (List (String × J)) :=
-  if roViolation c props (if c.setDefaults then injectDefaults c props kvs else kvs) then none
-  else if !addlOK addl props (if c.setDefaults then injectDefaults c props kvs else kvs) then none
-  else if !requiredOK req props (if c.setDefaults then injectDefaults c props kvs else kvs) then none
-  else some (if c.setDefaults then injectDefaults c props kvs else kvs)
+  if objChecks c req props addl (defaulted c props kvs) then some (defaulted c props kvs) else none
 
 def mapOpt (f : J → Option J) : List J → Option (List J)
   | [] => some []
@@ -150,6 +157,15 @@ def pick (k : Kind) (matches_ : List J) : Option J :=
   | .anyOf, x :: _ => some x
   | .oneOf, [x] => some x
   | _, _ => none
+
+/-- a composition node, given what its branches answer: a nullable node accepts null at once; without branches every
+    non-null value passes; allOf is the chained result, anyOf the first match, oneOf the only match -/
+def combRes (a : Attr) (k : Kind) (noBranches : Bool) (v : J) (all : Option J) (matches_ : List J) : Option J :=
+  if v.isNull && a.nullable then some v
+  else if noBranches then (if v.isNull then none else some v)
+  else match k with
+    | .allOf => all
+    | k => pick k matches_
 
 mutual
 def visit (c : Ctx) : S → J → Option J
@@ -166,14 +182,7 @@ def visit (c : Ctx) : S → J → Option J
     | .null => if a.nullable then some .null else none
     | .arr xs => (mapOpt (fun x => visit c items x) xs).map J.arr
     | _ => none
-  | .comb a k bs, v =>
-    if v.isNull && a.nullable then some v
-    else match bs with
-      | [] => if v.isNull then none else some v
-      | b :: rest =>
-        match k with
-        | .allOf => visitAll c (b :: rest) v
-        | k => pick k (visitMatches c (b :: rest) v)
+  | .comb a k bs, v => combRes a k bs.isEmpty v (visitAll c bs v) (visitMatches c bs v)
 /-- the present properties, visited with their schemas (value after the visits) -/
 def visitProps (c : Ctx) : List (String × S) → List (String × J) → Option (List (String × J))
   | [], kvs => some kvs
@@ -219,6 +228,25 @@ def hasComb : S → Bool
 def hasCombProps : List (String × S) → Bool
   | [] => false
   | (_, s) :: r => hasComb s || hasCombProps r
+end
+
+def keysNodup : List String → Bool
+  | [] => true
+  | k :: r => !r.contains k && keysNodup r
+
+mutual
+/-- property names of every object node are distinct (they are the keys of a Go map) -/
+def wf : S → Bool
+  | .leaf _ _ => true
+  | .obj _ _ props _ => keysNodup (props.map (·.1)) && wfProps props
+  | .arr _ items => wf items
+  | .comb _ _ bs => wfList bs
+def wfProps : List (String × S) → Bool
+  | [] => true
+  | (_, s) :: r => wf s && wfProps r
+def wfList : List S → Bool
+  | [] => true
+  | s :: r => wf s && wfList r
 end
 
 /-- the property's reading: only ABSENT properties receive defaults -/
